@@ -253,11 +253,11 @@ DoDtypeInfo(name, n) ==
       len == IF IsNone(n) THEN DefaultLen(c) ELSE n IN
   IF c = "pad" THEN Unconstrained                       \* has no return type
   ELSE IF c \in GolombNames THEN
-     (IF ~IsNone(n) THEN Raises({"ValueError"})
+     (IF ~IsNone(n) THEN Raises(AnyDoc)
       ELSE Ok(<<VSmall(NameIndex(c)), VNone, VNone, VSmall(1), VBool(DtypeSigned(c)), VBool(TRUE), VSmall(0)>>,
               [i \in 1..7 |-> ""], NoUpd))
   \* (a Dtype *object* of an integer type may have length 0; no value can be built with it - C15)
-  ELSE IF ~IsNone(n) /\ ~(LenAllowed(c, n) \/ (c \in IntNames /\ n = 0)) THEN Raises({"ValueError"})
+  ELSE IF ~IsNone(n) /\ ~(LenAllowed(c, n) \/ (c \in IntNames /\ n = 0)) THEN Raises(AnyDoc)
   ELSE Ok(<<VSmall(NameIndex(c)), OptSmall(len), OptSmall(IF IsNone(len) THEN NoneI ELSE len * Unit(c)), VSmall(Unit(c)),
             VBool(DtypeSigned(c)), VBool(FALSE), VSmall(RetTypeCode(c))>>, [i \in 1..7 |-> ""], NoUpd)
 
